@@ -4,12 +4,8 @@ package c08
 
 import (
 	"fmt"
-	"os"
-	"strings"
 	"testing"
-	"time"
 
-	"github.com/DistCompiler/pgo/systems/raftkvs/bootstrap"
 	"pgregory.net/rapid"
 
 	"verif/harness/sched"
@@ -26,158 +22,24 @@ import (
 func TestC08Deployed(t *testing.T) {
 	rapid.Check(t, func(t *rapid.T) {
 		vstat.Case()
-		n := rapid.SampledFrom([]int{1, 2, 3, 3, 3, 5}).Draw(t, "servers")
-		nc := rapid.IntRange(1, 2).Draw(t, "clients")
-		o := sysbind.DeployedOpts{NumServers: n, NumClients: nc,
-			Persist:         rapid.IntRange(0, 3).Draw(t, "persist") == 0,
-			ElectionTimeout: time.Duration(rapid.SampledFrom([]int{1, 3}).Draw(t, "election-ms")) * time.Millisecond,
-			ElectionOffset:  time.Millisecond,
-			HeartbeatEvery:  time.Millisecond,
-			ReceiveChanSize: rapid.SampledFrom([]int{3, 10, 100}).Draw(t, "chan-size"),
-			ClientTimeout:   time.Duration(rapid.SampledFrom([]int{20, 80}).Draw(t, "client-timeout-ms")) * time.Millisecond,
-		}
-		t0 := time.Now()
-		d, err := sysbind.NewDeployedRaft(o, func(in *sched.Instance, id string, k uint) uint {
-			return uint(rapid.IntRange(0, int(k)-1).Draw(t, id))
-		})
-		tSetup := time.Since(t0)
-		var tLoop time.Duration
-		if d != nil {
-			defer func() {
-				t1 := time.Now()
-				d.Close()
-				if os.Getenv("VERIF_TIMING") != "" {
-					fmt.Fprintf(os.Stderr, "n=%d setup=%v loop=%v close=%v\n", n, tSetup, tLoop, time.Since(t1))
-				}
-			}()
-		}
-		if err != nil {
-			t.Fatalf("INCONCLUSIVE: %v", err)
-		}
-		// workload
-		keys := []string{"k1", "k2"}
-		tok := 0
-		for c := 0; c < nc; c++ {
-			for i, m := 0, rapid.IntRange(1, 4).Draw(t, "ops"); i < m; i++ {
-				key := keys[rapid.IntRange(0, 1).Draw(t, "key")]
-				if rapid.IntRange(0, 9).Draw(t, "isput") < 6 {
-					tok++
-					d.ReqCh[c] <- bootstrap.PutRequest{Key: key, Value: fmt.Sprintf("v%d", tok)}
-				} else {
-					d.ReqCh[c] <- bootstrap.GetRequest{Key: key}
-				}
-			}
-			ch := d.RespCh[c]
-			go func() {
-				for range ch {
-				}
-			}()
-		}
-		var hist strings.Builder
 		iv := sysbind.NewRaftInv()
-		budget := rapid.SampledFrom([]int{300, 800, 1500}).Draw(t, "steps")
-		electPct := rapid.SampledFrom([]int{1, 3, 10}).Draw(t, "electpct")
-		maxCrash := (n - 1) / 2
-		crashAt := map[int]int{}
-		for i, k := 0, rapid.IntRange(0, maxCrash).Draw(t, "crashes"); i < k; i++ {
-			crashAt[rapid.IntRange(1, n).Draw(t, "crash-server")] = rapid.IntRange(0, budget).Draw(t, "crash-step")
+		run, msg := sysbind.DriveDeployed(t, sysbind.DeployedDriveOpts{MinClients: 1, MaxClients: 2, StepChoices: []int{300, 800, 1500},
+			OnCommit: func(run *sysbind.DeployedRun, in *sched.Instance, st sched.Step) string { return iv.Check(run.D.View()) }})
+		if run.D != nil {
+			defer run.D.Close()
 		}
-		var all []*sched.Instance
-		for _, g := range d.Insts {
-			all = append(all, g...)
+		if msg != "" {
+			t.Fatalf("%s\n-- schedule (last part):\n%s", msg, tailStr(run.Hist.String(), 6000))
 		}
-		all = append(all, d.CInsts...)
-		fail := func(f string, a ...any) {
-			t.Fatalf("%s\n-- schedule (last part):\n%s", fmt.Sprintf(f, a...), tailStr(hist.String(), 6000))
-		}
-		commits, elections, leaderSeen := 0, 0, false
-		for step := 0; step < budget; {
-			for s, at := range crashAt {
-				if step >= at && !d.Crashed[s] {
-					d.Crashed[s] = true
-					fmt.Fprintf(&hist, "-- server %d crashes (step %d)\n", s, step)
-				}
-			}
-			var cand []*sched.Instance
-			var w []int
-			total := 0
-			for _, in := range all {
-				node := d.NodeOf(in)
-				if !in.Live || (node <= n && d.Crashed[node]) {
-					continue
-				}
-				wt := 10
-				if strings.HasPrefix(in.Name, "AServerRequestVote") {
-					wt = electPct // stepping it means its election timer expires
-				} else if strings.HasPrefix(in.Name, "AServer(") {
-					wt = 30
-				}
-				cand = append(cand, in)
-				w = append(w, wt)
-				total += wt
-			}
-			if len(cand) == 0 {
-				break
-			}
-			x := rapid.IntRange(0, total-1).Draw(t, "who")
-			var in *sched.Instance
-			for i, c := range cand {
-				if x < w[i] {
-					in = c
-					break
-				}
-				x -= w[i]
-			}
-			for b, burst := 0, rapid.IntRange(1, 4).Draw(t, "burst"); b < burst && step < budget; b++ {
-				st := d.Sim.Step(in)
-				step++
-				switch st.Kind {
-				case sched.Committed:
-					commits++
-					fmt.Fprintf(&hist, "%d: %s commits %s\n", step-1, in.Name, st.PC)
-					if strings.HasSuffix(st.PC, "requestVoteLoop") {
-						elections++
-					}
-					if st.Err != nil {
-						fail("%s ended with an error: %v", in.Name, st.Err)
-					}
-					if d.ReadMismatch != "" {
-						fail("the five archetypes of a server do not share its state: %s", d.ReadMismatch)
-					}
-					if msg := iv.Check(d.View()); msg != "" {
-						fail("%s", msg)
-					}
-				case sched.Aborted:
-					b = burst
-				case sched.Exited:
-					if st.Err != nil {
-						fail("%s failed: %v", in.Name, st.Err)
-					}
-					b = burst
-				case sched.Stuck:
-					if e := d.RunErrors(); e != "" {
-						fail("an archetype ended: %s", e)
-					}
-					t.Fatalf("INCONCLUSIVE: %s stuck at %s", in.Name, st.PC)
-				default:
-					b = burst
-				}
-			}
-		}
-		tLoop = time.Since(t0) - tSetup
-		if e := d.RunErrors(); e != "" {
-			fail("an archetype ended: %s", e)
-		}
-		leaderSeen = iv.TermsWithLeader() > 0
-		vstat.ClassN("deployed.commits", int64(commits))
-		vstat.ClassN("deployed.elections-started", int64(elections))
-		vstat.Class(fmt.Sprintf("deployed.servers.%d", n))
-		if leaderSeen {
+		vstat.ClassN("deployed.commits", int64(run.Commits))
+		vstat.ClassN("deployed.elections-started", int64(run.Elections))
+		vstat.Class(fmt.Sprintf("deployed.servers.%d", run.D.N))
+		if iv.TermsWithLeader() > 0 {
 			vstat.Class("deployed.leader-elected")
 		}
-		if iv.TermsWithLeader() >= 2 || (leaderSeen && len(iv.Committed) > 0) {
-			vstat.NonTrivial("deployed|"+hist.String(), func() string {
-				return fmt.Sprintf("deployed wiring: %d servers, %d clients, %d commits, leaders in %d terms, %d entries committed", n, nc, commits, iv.TermsWithLeader(), len(iv.Committed))
+		if iv.TermsWithLeader() >= 2 || (iv.TermsWithLeader() > 0 && len(iv.Committed) > 0) {
+			vstat.NonTrivial("deployed|"+run.Hist.String(), func() string {
+				return fmt.Sprintf("deployed wiring: %d servers, %d clients, %d commits, leaders in %d terms, %d entries committed", run.D.N, run.D.NC, run.Commits, iv.TermsWithLeader(), len(iv.Committed))
 			})
 		}
 	})
